@@ -45,6 +45,9 @@ pub enum IdOp {
     Html5,
     /// clone the store and continue on the clone
     ForkContinueOnClone,
+    /// copy the store with Clone::clone_from into a store that has registrations of its own (the
+    /// given strings, as name, prefix and namespace) and continue on that copy
+    ContinueViaCloneFrom(Vec<String>),
     /// clone the store, register `n` fresh names in the clone, drop it
     ForkScratch(u32),
     /// register `n` fresh entries in every table (past any fixed id width)
@@ -636,6 +639,29 @@ fn apply(w: &mut IdWorld, op: &IdOp, stats: &mut Stats, rng_salt: u64) -> Result
             stats.inc("fault/store_fork_continue_on_clone");
             w.check_all(None)?;
         }
+        IdOp::ContinueViaCloneFrom(own) => {
+            let mut target = Xot::new();
+            for s0 in own {
+                target.add_name(s0);
+                target.add_prefix(s0);
+                let ns = target.add_namespace(s0);
+                target.add_name_ns(s0, ns);
+            }
+            target.clone_from(&w.x);
+            w.x = target;
+            stats.inc("fault/store_copied_with_clone_from_over_a_used_store");
+            w.check_all(None)?;
+            // what only the overwritten store knew is not there any more
+            for s0 in own {
+                w.check_absent(s0, "")?;
+                w.check_absent(s0, s0)?;
+                if !w.px.contains_key(s0) {
+                    if let Some(id) = w.x.prefix(s0) {
+                        return Err(v("lookup-wrong", format!("prefix({:?}) finds {:?}: a registration of the store that clone_from overwrote", s0, id)));
+                    }
+                }
+            }
+        }
         IdOp::ForkScratch(n) => {
             let mut c = w.x.clone();
             for i in 0..*n {
@@ -801,6 +827,7 @@ fn gen_ops(rng: &mut Rng, run_index: u64) -> Vec<IdOp> {
                 IdOp::Parse(t, fragment)
             }
             16 => IdOp::Html5,
+            17 if rng.pct(40) => IdOp::ContinueViaCloneFrom((0..rng.range(1, 4)).map(|_| pool(rng)).collect()),
             17 => IdOp::ForkContinueOnClone,
             18 => IdOp::ForkScratch(rng.range(1, 5) as u32),
             _ => IdOp::CheckAll,
